@@ -485,7 +485,8 @@ def tri_followups(R, chk, cell, desc, res, dense, payload):
     todo = []
     if structured or sym_pd:
         todo.append(("solve", lambda o: o.solve(rhs.clone()), lambda d: torch.linalg.solve(d, rhs.expand(*d.shape[:-2], n, 2))))
-        if bool((det > 0).all()):
+        # log-determinants are defined for positive diagonals (Diag.logdet sums log d_i; a negative pair would give nan)
+        if bool((det > 0).all()) and bool((dense.diagonal(dim1=-2, dim2=-1) > 0).all()):
             todo.append(("logdet", lambda o: o.logdet(), lambda d: torch.logdet(d)))
     if structured:
         todo.append(("inverse", lambda o: o.inverse(), lambda d: torch.linalg.inv(d)))
